@@ -101,3 +101,62 @@ func H_C19_multiShared() {
 	}
 	vfAssert(len(stack) == 2 && stack[0] == jet.Loader(a) && stack[1] == jet.Loader(b), "the caller's slice is not modified")
 }
+
+// H_C19_multiReal: stacks that contain a real directory-rooted loader (the OS loader over
+// /repo/testData/resolve) next to an in-memory loader, in both orders, queried with files,
+// directories ("/sub", "/"), nested files and missing entries: Exists is true exactly when
+// some loader of the stack has the path as a template (a directory never is one), and then
+// Open yields the content of the first loader that has it.
+//
+//gosym:reach found,none,directory
+func H_C19_multiReal() {
+	vfOSRoot("/repo", "/repo")
+	paths := []string{"/simple.jet", "/sub", "/", "/sub/extend", "/nope.jet", "/mem.jet", "/sub/", "/simple"}
+	p := paths[ndChoice("path", len(paths))]
+	osFirst := ndBool("osFirst")
+	mem := jet.NewInMemLoader()
+	mem.Set("/mem.jet", "MEM")
+	memHasSimple := ndBool("memHasSimple")
+	if memHasSimple {
+		mem.Set("/simple.jet", "MEMSIMPLE")
+	}
+	osl := jet.NewOSFileSystemLoader("/repo/testData/resolve")
+	var m *Multi
+	if osFirst {
+		m = NewLoader(osl, mem)
+	} else {
+		m = NewLoader(mem, osl)
+	}
+	inOS := osl.Exists(p)
+	inMem := mem.Exists(p)
+	got := m.Exists(p)
+	if p == "/sub" || p == "/" || p == "/sub/" {
+		vfReach("directory")
+		vfAssert(!got, "a directory is never reported as an existing template")
+	}
+	vfAssert(got == (inOS || inMem), "Exists is true iff some loader of the stack has the path")
+	if !got {
+		vfReach("none")
+		return
+	}
+	vfReach("found")
+	f, err := m.Open(p)
+	vfAssert(err == nil, "whenever Exists(p) is true, Open(p) succeeds")
+	if err != nil {
+		return
+	}
+	b, rerr := ioutil.ReadAll(f)
+	f.Close()
+	vfAssert(rerr == nil, "... and the content is readable")
+	first := mem
+	var want string
+	if (osFirst && inOS) || !inMem {
+		want = vfFileContent("/repo/testData/resolve" + p)
+	} else {
+		ff, _ := first.Open(p)
+		wb, _ := ioutil.ReadAll(ff)
+		want = string(wb)
+	}
+	vfNote(string(b))
+	vfAssert(string(b) == want, "Open yields the content of the first loader that has the path")
+}
